@@ -19,13 +19,26 @@ import tempfile
 ROOT = os.path.dirname(os.path.dirname(os.path.abspath(__file__)))
 
 
+def add_worktree(wt):
+    """`git worktree add` with retries (concurrent invocations contend for the repository lock)."""
+    import time as _t
+    err = None
+    for attempt in range(8):
+        r = subprocess.run(["git", "-C", "/repo", "worktree", "add", "--detach", "-f", wt], capture_output=True, text=True)
+        if r.returncode == 0:
+            return
+        err = r.stderr
+        subprocess.run(["git", "-C", "/repo", "worktree", "prune"], capture_output=True)
+        _t.sleep(1.5 * (attempt + 1))
+    raise RuntimeError("git worktree add failed: " + str(err))
+
+
 def run_one(spec, tier, extra):
     name = spec["name"]
     prop = name.split("-")[0]
     tmp = tempfile.mkdtemp(prefix="mut_", dir="/tmp")
     try:
-        subprocess.run(["git", "-C", "/repo", "worktree", "add", "--detach", "-f", os.path.join(tmp, "wt")],
-                       check=True, capture_output=True)
+        add_worktree(os.path.join(tmp, "wt"))
         wt = os.path.join(tmp, "wt")
         # bring uncommitted changes of /repo along (checks must reflect the working tree)
         diff = subprocess.run(["git", "-C", "/repo", "diff", "HEAD"], capture_output=True, text=True).stdout
